@@ -12,25 +12,28 @@ for d in sorted(glob.glob('/verif/seeded/*')):
     caught = m.get('caught', '?')
     rows.append(f"| `{name}` | {m['property']} | {m['needs_to_manifest']} | {res} | {'yes' if caught == 'yes' else 'only after the check was strengthened' if caught.startswith('after') else caught} |")
 n_first = sum(1 for r in rows if r.endswith('| yes |'))
-w2 = [r for r in rows if '-w2-' in r.split('|')[1]]
-w1 = [r for r in rows if '-w2-' not in r.split('|')[1]]
-w1_first = sum(1 for r in w1 if r.endswith('| yes |'))
-w2_first = sum(1 for r in w2 if r.endswith('| yes |'))
+def wave(r):
+    n = r.split('|')[1]
+    return 3 if '-w3-' in n else 2 if '-w2-' in n else 1
+waves = {w: [r for r in rows if wave(r) == w] for w in (1, 2, 3)}
+first = {w: sum(1 for r in waves[w] if r.endswith('| yes |')) for w in (1, 2, 3)}
 block = f"""<!-- seeded-table-begin -->
 {len(rows)} mutants written by independent sub-agents (each saw only the property text and a scratch worktree) are
 kept under `/verif/seeded/<name>/` (patch.diff, the agent's demonstration, meta.json, confirm.txt).
 Each was confirmed by `tools/confirm_mutant.sh`: the repository's suite stays at 32 passed with the
 mutant, the demonstration fails with it and passes without it, and `./check <id> quick` is run with
-the patch applied to /repo (reverted straight afterwards). They came in two waves, two per property
-each time: {len(w1)} in the first wave ({w1_first} caught by the checks as they stood) and {len(w2)} in a second wave
-written against the strengthened checks and the repaired tree (`-w2-` in the name; {w2_first} caught as they stood),
-{n_first} of {len(rows)} in total;
+the patch applied to /repo (reverted straight afterwards). They came in three waves of two per
+property: {len(waves[1])} in the first wave ({first[1]} caught by the checks as they stood), {len(waves[2])} in a second wave written
+against the strengthened checks and the repaired tree (`-w2-` in the name; {first[2]} caught as they stood) and
+{len(waves[3])} in a third wave whose authors were asked for interactions, stale state and order dependence
+(`-w3-`; {first[3]} caught as they stood): {n_first} of {len(rows)} in total;
 the others exposed a gap, the check was strengthened (what was added is in the `needs` column and in
 section 0), and they are caught now. No mutant is left uncaught. `tools/check_seeded.sh` re-validates
 all of them against the current /repo and the current checks (patch applies, suite green with it,
 check exits 1); patches that later `fix:` commits had made unappliable were rebased (the original is
-kept as `patch.original.diff`), and one mutant that a later fix neutralised was moved to
-`/verif/seeded-retired/`.
+kept as `patch.original.diff`); mutants that a later repair neutralised, and one that needs a
+construct outside the subset, are in `/verif/seeded-retired/` with the reason (README.md there).
+Where the check named after the mutant's property says `exit 0`, another check reports it (column 4).
 
 | seeded mutant | property | what it needs in order to manifest | checks run with the mutant | caught by the first version |
 |---------------|----------|-------------------------------------|----------------------------|-----------------------------|
